@@ -473,3 +473,8 @@ _gcc.internal["module_has_every_part_with_every_option_forwarded"] = (
     "stiff_states, None, [f'int NUM_STATES = {len(ode.states)};', f'int NUM_PARAMS = {len(ode.parameters)};', "
     "f'int NUM_MONITORED = {len(ode.state_derivatives) + len(ode.intermediates)};'])")
 _gcc.properties = ("C18", "C02", "C04")
+
+# the option spaces are products of independent choices: a covering set of variants (every value of every option at
+# least twice, in two different alignments) instead of the full product keeps the quick tier fast
+for _q in (G + "ode2py", G + "ode2c", G + "convert", G + "gotran2py.main", G + "gotran2c.main"):
+    CONTRACTS[_q].enum_cover = True
